@@ -1,5 +1,116 @@
 package props
 
-import "rqverif/checker/internal/core"
+import (
+	"encoding/json"
+	"fmt"
+	"os"
+	"os/exec"
+	"path/filepath"
+	"regexp"
+	"sort"
+	"strings"
 
-func thorough(c *core.Ctx, repo string) {}
+	"rqverif/checker/internal/core"
+)
+
+// thorough adds, for the property of c, a sensitivity run of the checker: every
+// seeded change under <verif>/seeded whose meta.json says this property's check
+// detects it is applied to a scratch copy of the analysed tree (outside the
+// repository and outside /verif, removed afterwards) and the quick check is run
+// on the copy in a fresh process. A seeded change that applies and is no longer
+// detected means the checker lost sensitivity; it is reported in the evidence
+// and on stdout, it does not change the verdict on the analysed tree.
+func thorough(c *core.Ctx, repo string) {
+	verif := os.Getenv("RQCHECK_VERIF")
+	if verif == "" {
+		verif = "/verif"
+	}
+	if os.Getenv("RQCHECK_NO_SENSITIVITY") != "" {
+		return
+	}
+	metas, _ := filepath.Glob(filepath.Join(verif, "seeded", "*", "meta.json"))
+	sort.Strings(metas)
+	type meta struct {
+		Seed       string   `json:"seed"`
+		Property   string   `json:"property"`
+		DetectedBy []string `json:"detected_by"`
+	}
+	self, err := os.Executable()
+	if err != nil {
+		c.Note("sensitivity run skipped: %v", err)
+		return
+	}
+	nApplied, nDetected := 0, 0
+	for _, mp := range metas {
+		b, err := os.ReadFile(mp)
+		if err != nil {
+			continue
+		}
+		var m meta
+		if json.Unmarshal(b, &m) != nil {
+			continue
+		}
+		mine := false
+		for _, d := range m.DetectedBy {
+			if d == c.Check.ID {
+				mine = true
+			}
+		}
+		if !mine {
+			continue
+		}
+		patch := filepath.Join(filepath.Dir(mp), "patch.diff")
+		scratch, err := os.MkdirTemp("", "rqcheck-sens-")
+		if err != nil {
+			c.Note("sensitivity run skipped: %v", err)
+			return
+		}
+		func() {
+			defer os.RemoveAll(scratch)
+			tree := filepath.Join(scratch, "tree")
+			if out, err := exec.Command("rsync", "-a", "--exclude", ".git", strings.TrimRight(repo, "/")+"/", tree+"/").CombinedOutput(); err != nil {
+				c.Note("sensitivity %s: copy failed: %v %s", m.Seed, err, out)
+				return
+			}
+			ap := exec.Command("git", "apply", "--whitespace=nowarn", patch)
+			ap.Dir = tree
+			if out, err := ap.CombinedOutput(); err != nil {
+				c.Note("sensitivity %s: seeded change does not apply to this tree (%s): skipped", m.Seed, strings.TrimSpace(firstLine(string(out))))
+				fmt.Printf("SENSITIVITY property=%s seed=%s not-applicable\n", c.Check.ID, m.Seed)
+				return
+			}
+			nApplied++
+			sv := filepath.Join(scratch, "verif")
+			os.MkdirAll(filepath.Join(sv, "evidence"), 0o755)
+			if kf, err := os.ReadFile(filepath.Join(verif, "known_findings.json")); err == nil {
+				os.WriteFile(filepath.Join(sv, "known_findings.json"), kf, 0o644)
+			}
+			// the fixtures are read from the real verification directory
+			os.MkdirAll(filepath.Join(sv, "checker", "testdata"), 0o755)
+			os.Symlink(filepath.Join(verif, "checker", "testdata", "fixtures"), filepath.Join(sv, "checker", "testdata", "fixtures"))
+			run := exec.Command(self, "-prop", c.Check.ID, "-tier", "quick", "-repo", tree, "-verif", sv)
+			run.Env = append(os.Environ(), "RQCHECK_NO_SENSITIVITY=1")
+			out, _ := run.CombinedOutput()
+			re := regexp.MustCompile(`(?m)^` + c.Check.ID + `: .* (\d+) failing`)
+			mm := re.FindStringSubmatch(string(out))
+			detected := mm != nil && mm[1] != "0"
+			if detected {
+				nDetected++
+				fmt.Printf("SENSITIVITY property=%s seed=%s detected\n", c.Check.ID, m.Seed)
+				c.Note("sensitivity %s: seeded change applied to a scratch copy is detected (%s failing obligation(s))", m.Seed, mm[1])
+			} else {
+				fmt.Printf("SENSITIVITY property=%s seed=%s MISSED\n", c.Check.ID, m.Seed)
+				c.Note("sensitivity %s: seeded change applied to a scratch copy is NOT detected — the check lost sensitivity on this tree", m.Seed)
+			}
+		}()
+	}
+	c.Inst["seeded changes applied to a scratch copy"] += nApplied
+	c.Inst["seeded changes detected on the scratch copy"] += nDetected
+}
+
+func firstLine(s string) string {
+	if i := strings.Index(s, "\n"); i >= 0 {
+		return s[:i]
+	}
+	return s
+}
